@@ -140,7 +140,7 @@ func corruptTokens(r *rand.Rand, toks []string) []string {
 	}
 	k := r.Intn(len(toks))
 	out := append([]string{}, toks...)
-	switch r.Intn(6) {
+	switch r.Intn(7) {
 	case 0: // delete one token
 		out = append(out[:k], out[k+1:]...)
 	case 1: // duplicate one token
@@ -159,6 +159,17 @@ func corruptTokens(r *rand.Rand, toks []string) []string {
 		}
 	case 4: // append a token
 		out = append(out, []string{"a", ")", "&", "}", ";", "|", "^", ","}[r.Intn(8)])
+	case 5: // replace one token (in particular a closing parenthesis by a stray token)
+		repl := []string{"a", "b", ")", "(", "&", "|", "}", ",", "^", "1"}[r.Intn(10)]
+		if r.Intn(2) == 0 { // prefer the last closing parenthesis
+			for p := len(out) - 1; p >= 0; p-- {
+				if out[p] == ")" {
+					k = p
+					break
+				}
+			}
+		}
+		out[k] = repl
 	default: // insert a stray punctuation sign
 		out = append(out[:k], append([]string{[]string{",", "}", "-", ">", "(", "{", "&"}[r.Intn(7)]}, out[k:]...)...)
 	}
